@@ -39,6 +39,7 @@ class Execution:
         self.blocked_on = {}
         self.yielded = {}  # tid -> Semaphore released by the thread whenever it hands control back
         self.native_timeout = 1.0
+        self.native_grace = 0.08
         self.native_blocked_events = 0
         self.current = None
         self.results = {}
@@ -95,8 +96,10 @@ class Execution:
         while True:
             # a thread blocked in native code (e.g. on an engine mutex, GIL released) is disabled until it
             # hands control back on its own
+            # (grace period: if the last step released what it was waiting for, it reaches its next
+            # scheduling point within microseconds -- wait for that so that replays are deterministic)
             for t in list(native):
-                if self.yielded[t].acquire(blocking=False):
+                if self.yielded[t].acquire(timeout=self.native_grace):
                     native.discard(t)
             enabled = [t for t in sorted(self.state) if self.state[t] == 'ready' and t not in native]
             if not enabled and native:
@@ -207,11 +210,23 @@ def explore(make_bodies, check, bound, on_schedule=None, max_schedules=None):
         if max_schedules is not None and stats['schedules'] >= max_schedules:
             stats['complete'] = False
             break
-        ex = Execution(prefix)
-        if on_schedule:
-            on_schedule(prefix)
-        bodies, context = make_bodies(ex)
-        ex.run(bodies)
+        for attempt in range(4):
+            ex = Execution(prefix)
+            if on_schedule:
+                on_schedule(prefix)
+            bodies, context = make_bodies(ex)
+            try:
+                ex.run(bodies)
+                break
+            except ScheduleDivergence:
+                # only possible when a thread blocked in native code woke up at a different moment
+                # than in the run that produced this prefix; retry with a longer grace period
+                stats['divergence_retries'] = stats.get('divergence_retries', 0) + 1
+                cleanup = getattr(context.get('world'), 'cleanup', None) if isinstance(context, dict) else None
+                if cleanup:
+                    cleanup()
+                if attempt == 3:
+                    raise
         stats['schedules'] += 1
         stats['max_points'] = max(stats['max_points'], len(ex.points))
         stats['distinct_traces'].add(tuple(ex.trace))
